@@ -822,7 +822,9 @@ class DSD_Complex(object):
         self._pair_table = None
         self._loop_index = None
         self._lol_sequence = None
+        self._strand_lengths = None
         self._exterior_domains = None
+        self._enclosed_domains = None
         return self
 
     def rotate_pairtable_loc(self, loc, n=None):
